@@ -8,11 +8,13 @@ Monitor = the property itself on the real keys: within a group, two requests hav
 hashed components (computed here, independently of the model).
 """
 import atexit
+import glob
 import json
 import os
 import shutil
 import subprocess
 import sys
+import time
 
 from .. import pipeline
 from .. import sx
@@ -28,9 +30,10 @@ COQ_EXTRA = ['Gen.C02HashSpec_ok']
 THEOREMS = [
     'C02_encode_injective', 'C02_encode_injective_gen', 'C02_lang_injective', 'C02_single_change',
     'C02_boundary_shift', 'C02_split_merge', 'C02_name_value_shift', 'C02_list_move', 'C02_key_iff',
-    'C02_pp_encode_injective', 'C02_pp_single_change', 'C02_pp_boundary_shift', 'C02_pp_name_value_shift',
+    'C02_pp_encode_injective', 'C02_pp_encode_injective_canon', 'C02_pp_time_salt_injective', 'C02_pp_single_change', 'C02_pp_boundary_shift', 'C02_pp_name_value_shift',
     'C02_pp_list_move', 'C02_pp_key_iff', 'C02_pp_env_covers_main', 'C02_required_vars_hashed',
     'C02_lang_pp_boundary_refuted', 'C02_extra_pp_boundary_refuted', 'C02_pp_lang_path_boundary_refuted',
+    'C02_pp_path_tail_refuted',
     'C02_old_tags_refuted', 'C02_old_env_cover_refuted',
 ]
 ASSUMPTIONS = [
@@ -39,7 +42,9 @@ ASSUMPTIONS = [
     'pp_ok / path_ok: the preprocessor output (resp. the absolute input path) does not begin with text that extends this language\'s tag into another language\'s tag (e.g. language c with output starting "++"): without it the statement is refuted (C02_lang_pp_boundary_refuted, C02_pp_lang_path_boundary_refuted; findings C02-S10b, C02-S10d)',
     'extra hashes vs. preprocessor output: unless both requests carry the same number of extra hashes or neither output begins with 64 hex characters the boundary is ambiguous (C02_extra_pp_boundary_refuted; finding C02-S10c)',
     'Language::Cuda and Language::CudaFE share the tag "cuda" on purpose (driver_bound_aliases in Model/KeyEnc.v): CudaFE is produced only by cudafe.rs for the cudafe++ executable; language equality is claimed up to that pair',
-    'the pp-level key is modelled for input files read in one chunk (< 128 KiB): "time macro found" = the file contains __TIME__ (chunked search is C04\'s subject)',
+    'the pp-level key is modelled for input files read in one chunk (< 128 KiB): "time macro found" = the file contains __TIME__ / __DATE__ / __TIMESTAMP__ (chunked search is C04\'s subject); the input file\'s mtime is available and not before 1970',
+    'path_tail_ok: the input path does not end in 64 hex digits followed by "-" (the path is followed undelimited by  digest  or  digest "-" digest ); without it: C02_pp_path_tail_refuted',
+    'date, SOURCE_DATE_EPOCH and mtime are request components of the model; the key sees them only when the file mentions __DATE__ / __TIMESTAMP__ and time macros are not ignored (salt_view); an unset and an empty SOURCE_DATE_EPOCH are not told apart; the differential leg controls mtime and SOURCE_DATE_EPOCH and runs on the current local date only',
 ]
 TRUSTED = [
     'translator/c02_hashspec.py transcribes CACHE_VERSION, FORMAT_VERSION, both CACHED_ENV_VARS, Language::as_str and the statement order of hash_key / preprocessor_cache_entry_hash_key (every item is also exercised by the differential legs; unknown syntax raises)',
@@ -59,7 +64,17 @@ REQUIRED_PP = REQUIRED_MAIN + [b'CPATH', b'C_INCLUDE_PATH', b'CPLUS_INCLUDE_PATH
 ROOT = '/dev/shm/vh-c02-%d' % os.getpid()
 CORPUS_ROOT = '/dev/shm/vh-c02-corpus'
 HEX = b'0123456789abcdef'
-atexit.register(lambda: shutil.rmtree(ROOT, ignore_errors=True))
+
+
+def cleanup():
+    for d in [ROOT, CORPUS_ROOT] + glob.glob('/dev/shm/vh-c02-root-*'):
+        pid = d.rsplit('-', 1)[-1]
+        if d.startswith('/dev/shm/vh-c02-root-') and pid.isdigit() and os.path.exists('/proc/' + pid):
+            continue        # a harness process of a concurrent run still lives in it
+        shutil.rmtree(d, ignore_errors=True)
+
+
+atexit.register(cleanup)
 
 
 # ------------------------------------------------------------------ translator
@@ -107,7 +122,7 @@ def side_conditions(s):
     res = []
     exp_env = [['EName', 'LP'], ['ELit', b'='], ['EVal', 'LP']]
     exp_c = [['CDigest'], ['CPlusplus'], ['CVersion'], ['CLang'], ['CArgs', 'LP'], ['CExtra'], ['CEnv', exp_env], ['CPP']]
-    exp_p = [['CDigest'], ['CPlusplus'], ['CFmtVersion'], ['CLang'], ['CArgs', 'LP'], ['CExtra'], ['CEnv', exp_env], ['CPath'], ['CInputDigest']]
+    exp_p = [['CDigest'], ['CPlusplus'], ['CFmtVersion'], ['CLang'], ['CArgs', 'LP'], ['CExtra'], ['CEnv', exp_env], ['CPath'], ['CInputDigestT']]
     norm = lambda x: json.loads(json.dumps(spec_to_json({'x': x})['x']))
     res.append(('side-condition:shape_c = expected_shape_c (components of hash_key: order, delimiting)',
                 norm(s['shape_c']) == norm(exp_c), repr(s['shape_c'])))
@@ -157,7 +172,8 @@ def translate(rep):
 
 # ------------------------------------------------------------------ requests (python values)
 # main-key request: [digest, plusplus, lang, [args], [extras], [[k, v]..], pp]
-# pp-level request: [digest, plusplus, lang, [args], [extras], [[k, v]..], path, input, ignore_time]
+# pp-level request: [digest, plusplus, lang, [args], [extras], [[k, v]..], path, input, ignore_time,
+#                    mtime_secs, mtime_nanos, sde, [year, month, day]]      sde = [] (unset) | [value]
 
 def lang_names():
     s = load_spec()
@@ -193,8 +209,18 @@ def canon_c(r):
     return (r[0], 1 if r[1] else 0, lang_class(r[2]), tuple(r[3]), tuple(r[4]), fenv(r, 'allow_main'), r[6])
 
 
+def salt_view(r):
+    """what the pp-level key sees of date / SOURCE_DATE_EPOCH / mtime (mirror of KeyEnc.salt_view)"""
+    inp = r[7]
+    hd, hs = b'__DATE__' in inp, b'__TIMESTAMP__' in inp
+    if r[8] or not (hd or hs):
+        return None
+    return ((tuple(r[12]), r[11][0] if r[11] else b'') if hd else None, (r[9], r[10]) if hs else None)
+
+
 def canon_p(r):
-    return (r[0], 1 if r[1] else 0, lang_class(r[2]), tuple(r[3]), tuple(r[4]), fenv(r, 'allow_pp'), r[6], r[7])
+    return (r[0], 1 if r[1] else 0, lang_class(r[2]), tuple(r[3]), tuple(r[4]), fenv(r, 'allow_pp'), r[6], r[7],
+            salt_view(r))
 
 
 def tag_ext_prefix(l, text):
@@ -219,8 +245,13 @@ def basic_ok_c(r):
     return common_ok(r) and all(str_ok(v) for _, v in fenv(r, 'allow_main')) and str_ok(r[6])
 
 
+def path_tail_ok(p):
+    return not (len(p) >= 65 and p[-1:] == b'-' and is_hex64(p[-65:-1]))
+
+
 def basic_ok_p(r):
-    return (common_ok(r) and all(str_ok(v) for _, v in fenv(r, 'allow_pp')) and str_ok(r[6]) and r[6][:1] == b'/')
+    return (common_ok(r) and all(str_ok(v) for _, v in fenv(r, 'allow_pp')) and str_ok(r[6]) and r[6][:1] == b'/'
+            and path_tail_ok(r[6]))
 
 
 # ------------------------------------------------------------------ generators
@@ -290,13 +321,30 @@ def gen_req_c(rng):
 NAMES = [b'x.c', b'main.cpp', b'a b.c', b'h.h', b'\xc3\xa9.cc', b'\xff\xfe.c', b'=.c', b'x', b'c++', b'Header.h', b'0f.c']
 
 
+def today():
+    t = time.localtime()
+    return [t.tm_year, t.tm_mon, t.tm_mday]
+
+
 def gen_req_p(rng, root):
     comps = [rng.choice([b'src', b'a', b'c++', b'd e', b'\xfe', b'++', b'0123456789abcdef' * 4]) for _ in range(rng.below(3))]
     path = b'/'.join([root] + comps + [rng.choice(NAMES)])
-    text = gen_text(rng, 60)
-    if rng.chance(1, 8):
-        text += rng.choice([b'__TIME__', b'__TIMESTAMP__', b'__TIME_', b'_TIME__', b'x__TIME__y'])
-    return gen_common(rng) + [path, text, rng.weighted([(0, 3), (1, 1)])]
+    text = gen_text(rng, 60).replace(b'__DATE__', b'__DATE_')
+    k = rng.weighted([('plain', 10), ('time', 2), ('date', 3), ('stamp', 3), ('both', 2), ('near', 2)])
+    if k == 'time':
+        text += rng.choice([b'__TIME__', b'x__TIME__y', b'__TIME__ __DATE__'])
+    elif k == 'date':
+        text = rng.choice([b'', text[:len(text) // 2]]) + b'const char *d = __DATE__;' + text[len(text) // 2:]
+    elif k == 'stamp':
+        text += b'const char *s = __TIMESTAMP__;\n'
+    elif k == 'both':
+        text = b'__TIMESTAMP__' + text + b'__DATE__'
+    elif k == 'near':
+        text += rng.choice([b'__TIME_', b'_TIME__', b'__DATE_', b'_DATE__', b'__TIMESTAMP_', b'__TIME__STAMP__'[:8] + b'x', b'__date__'])
+    secs = rng.weighted([(0, 1), (1, 1), (rng.below(1 << 31), 6), ((1 << 32) + rng.below(1 << 20), 1), (255, 1), (256, 1)])
+    nanos = rng.weighted([(0, 3), (rng.below(1000000000), 5), (999999999, 1)])
+    sde = rng.weighted([([], 5), ([b'0'], 1), ([b'1700000000'], 2), ([b''], 1), ([gen_bytes(rng, 12, False)], 1)])
+    return gen_common(rng) + [path, text, rng.weighted([(0, 4), (1, 1)]), secs, nanos, sde, today()]
 
 
 def flip(b, i):
@@ -417,7 +465,17 @@ def mutants(r, level, adversarial=False):
         put('input-byte', 7, flip(inp, len(inp) // 2) if inp else b'x')
         put('input-append', 7, inp + b'\n')
         put('input-time', 7, inp + b'__TIME__')
+        put('input-date', 7, inp + b' __DATE__')
+        put('input-stamp', 7, b'__TIMESTAMP__' + inp)
         put('ignore-time', 8, 1 - (1 if ig else 0))
+        put('mtime-secs', 9, r[9] + 1)
+        put('mtime-secs', 9, r[9] + 256)
+        put('mtime-nanos', 10, (r[10] + 1) % 1000000000)
+        put('sde', 11, [b'1'] if r[11] != [b'1'] else [b'2'])
+        put('sde-unset-vs-empty', 11, [] if r[11] else [b''])
+        if r[11] and r[11][0]:
+            put('sde-trunc', 11, [r[11][0][:-1]])
+
         if inp and inp[:1] not in (b'/', b'\0'):
             move('move-path-input', _6=path + inp[:1], _7=inp[1:])
     return out
@@ -472,6 +530,31 @@ def gen_ppkey(rng, tier):
     return out
 
 
+def s10d_pairs():
+    """language l + path (s ++ p)  vs  the language whose tag is tag(l) ++ s + path p, for every tag extension s that
+    starts with '/' (finding C02-S10d); only meaningful under the private root of leg ppkey-root"""
+    tags = load_spec()['tags']
+    out = []
+    for n1, t1 in tags:
+        for n2, t2 in tags:
+            if t2.startswith(t1) and len(t2) > len(t1) and t2[len(t1):].startswith(b'/') and n1 in HARNESS_LANGS and n2 in HARNESS_LANGS:
+                out.append((n1.encode(), n2.encode(), t2[len(t1):]))
+    return out
+
+
+def gen_ppkey_root(rng, tier):
+    out = []
+    for i in range(40 if tier == 'quick' else 400):
+        out.append(group(rng, gen_req_p(rng, b'/r%d' % i), 'p', 8))
+    if 'C02-S10d' in known_ids():
+        for i, (l1, l2, s) in enumerate(s10d_pairs() * 5):
+            r = gen_req_p(rng, b'/x')
+            a = list(r); a[0] = gen_hex64(rng); a[2] = l1; a[3] = []; a[4] = []; a[5] = []; a[6] = s + b'/d%d/x.h' % i
+            b = list(a); b[2] = l2; b[6] = a[6][len(s):]
+            out.append([[b'base', b'adv-lang-path'], [a, b]])
+    return out
+
+
 def gen_lp(rng, tier):
     out = [b'', b'a', b'\0', bytes(range(256)), b'=' * 61, b'x' * 255, b'x' * 256, b'x' * 257, b'y' * 65536, b'z' * 65537]
     for _ in range(3000 if tier == 'quick' else 30000):
@@ -511,7 +594,8 @@ def make_monitor(level):
     excuse = excuse_c if level == 'c' else excuse_p
     names = (['compiler digest', 'plusplus', 'language', 'arguments', 'extra hashes', 'allow-listed environment', 'preprocessor output']
              if level == 'c' else
-             ['compiler digest', 'plusplus', 'language', 'arguments', 'extra hashes', 'allow-listed environment', 'input path', 'input file'])
+             ['compiler digest', 'plusplus', 'language', 'arguments', 'extra hashes', 'allow-listed environment', 'input path', 'input file',
+              'date / SOURCE_DATE_EPOCH / mtime as far as the file mentions __DATE__ / __TIMESTAMP__'])
     fn = 'hash_key' if level == 'c' else 'preprocessor_cache_entry_hash_key'
 
     def monitor(case, out):
@@ -526,6 +610,8 @@ def make_monitor(level):
                 if want_none != (k == b'none'):
                     vs.append('request %d: time-macro gate: key is %r but the input %s __TIME__ (ignore_time_macros=%d)'
                               % (i, k, 'mentions' if b'__TIME__' in r[7] else 'does not mention', r[8]))
+            if k == b'date_changed':
+                continue
             if k in (b'err', b'unknown_lang') or not isinstance(k, bytes):
                 vs.append('request %d: no key computed (%r)' % (i, k))
         # main-key variables must also be part of the pp-level key (S16): checked on the real pp-level keys
@@ -533,6 +619,8 @@ def make_monitor(level):
             for j in range(i + 1, len(reqs)):
                 ki, kj = out[i], out[j]
                 if ki == b'none' or kj == b'none' or not isinstance(ki, bytes) or not isinstance(kj, bytes):
+                    continue
+                if b'date_changed' in (ki, kj):
                     continue
                 same = cs[i] == cs[j]
                 if same and level == 'p' and fenv(reqs[i], 'allow_main') != fenv(reqs[j], 'allow_main'):
@@ -568,6 +656,10 @@ def stats(case, out):
     ks = ['nargs=%s' % bucket(len(r[3])), 'nextra=%d' % len(r[4]), 'nenv=%d' % min(len(r[5]), 7),
           'lang=%s' % r[2].decode('latin-1'), 'group=%s' % bucket(len(reqs)),
           'text=%s' % bucket(len(r[6] if len(r) == 7 else r[7]))]
+    if len(r) > 7:
+        v = salt_view(r)
+        ks.append('salt=' + ('gated' if (not r[8] and b'__TIME__' in r[7]) else 'none' if v is None else
+                             '+'.join(n for n, x in zip(('date', 'mtime'), v) if x is not None)))
     ks += ['mut=' + l.decode() for l in labels[1:]]
     for x in (out if isinstance(out, list) else []):
         if x == b'none':
@@ -647,7 +739,17 @@ class Chain:
         return self.p.stdout.readline().decode().rstrip('\n')
 
     def __call__(self, m, i):
-        return self.hashed(m) == i
+        h = self.hashed(m)
+        if h == i:
+            return True
+        if 'date_changed' in i:
+            # the local date moved on between generation and execution: those members are not comparable
+            try:
+                a, b = sx.loads(h), sx.loads(i)
+                return len(a) == len(b) and all(y == b'date_changed' or x == y for x, y in zip(a, b))
+            except Exception:
+                return False
+        return False
 
 
 CHAIN = Chain()
@@ -667,14 +769,18 @@ def legs(tier):
         Leg('ppkey', gen_ppkey, monitor=make_monitor('p'), classify=classify, stats=stats, shrink=shrink,
             neighbours=make_neighbours('p'), compare=CHAIN,
             rule='same for preprocessor_cache_entry_hash_key with a real input file per request (paths with spaces, '
-                 'non-UTF-8 bytes, tag-like components), time-macro gate, both allow-lists'),
+                 'non-UTF-8 bytes, tag-like components), time-macro gate, both allow-lists; files with __DATE__ / '
+                 '__TIMESTAMP__ get the mtime and SOURCE_DATE_EPOCH of the case (the date is the day of the run)'),
+        Leg('ppkey-root', gen_ppkey_root, monitor=make_monitor('p'), classify=classify, stats=stats, shrink=shrink,
+            compare=CHAIN,
+            rule='the same leg inside a private root directory (chroot under /dev/shm), so that absolute paths which '
+                 'begin with a tag extension (/c++/...) can exist: replays finding C02-S10d'),
     ]
 
 
 def extra(rep, known):
     CHAIN.close()
-    shutil.rmtree(ROOT, ignore_errors=True)
-    shutil.rmtree(CORPUS_ROOT, ignore_errors=True)
+    cleanup()
     if 'key' in rep.legs:
         return
     # The model could not be built (e.g. a side condition of Gen/C02HashSpec_ok.v fails).  Search for a failing
@@ -705,5 +811,4 @@ def extra(rep, known):
                             break
                     rep.violation('property', leg.name, small, v + ' (found on the implementation alone; the model was not built)')
         rep.legs[leg.name + ':impl-only'] = dict(cases=len(cases), violations=nv)
-    shutil.rmtree(ROOT, ignore_errors=True)
-    shutil.rmtree(CORPUS_ROOT, ignore_errors=True)
+    cleanup()
